@@ -10,43 +10,54 @@ Inductive sim : st -> st -> Prop :=
 | sim_open a b : sim (TagOpen a) (TagOpen b)
 | sim_refl s : sim s s.
 
+Section Proj.
+(* a projection of tokens that ignores character data: the skeleton (names only) or the tags themselves *)
+Variable X : Type.
+Variable pr : token -> list X.
+Hypothesis pr_text : forall r, pr (TText r) = [].
+Definition proj (l : list token) : list X := flat_map pr l.
+Lemma proj_app a b : proj (a ++ b) = proj a ++ proj b.
+Proof. apply flat_map_app. Qed.
+Lemma proj_emit_text t : proj (emit_text t) = [].
+Proof. destruct t; [reflexivity|]. cbn. now rewrite pr_text. Qed.
+
 Lemma step_sim s s' c : sim s s' ->
-  sim (fst (step s c)) (fst (step s' c)) /\ skel (snd (step s c)) = skel (snd (step s' c)).
+  sim (fst (step s c)) (fst (step s' c)) /\ proj (snd (step s c)) = proj (snd (step s' c)).
 Proof.
   destruct 1 as [a b | a b | s]; cbn [step].
   - destruct (beq c x3c); cbn; split; constructor || reflexivity.
-  - destruct (is_alpha c); [cbn; split; [constructor|now rewrite !skel_emit_text]|].
-    destruct (beq c x2f); [cbn; split; [constructor|now rewrite !skel_emit_text]|].
-    destruct (beq c x21 || beq c x3f); [cbn; split; [constructor|now rewrite !skel_emit_text]|].
+  - destruct (is_alpha c); [cbn; split; [constructor|now rewrite !proj_emit_text]|].
+    destruct (beq c x2f); [cbn; split; [constructor|now rewrite !proj_emit_text]|].
+    destruct (beq c x21 || beq c x3f); [cbn; split; [constructor|now rewrite !proj_emit_text]|].
     destruct (beq c x3c); cbn; split; constructor || reflexivity.
   - split; [constructor|reflexivity].
 Qed.
 Lemma run_sim y : forall s s', sim s s' ->
-  sim (fst (run s y)) (fst (run s' y)) /\ skel (snd (run s y)) = skel (snd (run s' y)).
+  sim (fst (run s y)) (fst (run s' y)) /\ proj (snd (run s y)) = proj (snd (run s' y)).
 Proof.
   induction y as [|c y IH]; intros s s' H; cbn [run]; [split; [exact H|reflexivity]|].
   destruct (step_sim s s' c H) as [H1 H2].
   destruct (step s c) as [s1 o1], (step s' c) as [s1' o1']. cbn [fst snd] in *.
   destruct (IH s1 s1' H1) as [H3 H4].
   destruct (run s1 y) as [s2 o2], (run s1' y) as [s2' o2']. cbn [fst snd] in *.
-  split; [exact H3|]. now rewrite !skel_app, H2, H4.
+  split; [exact H3|]. now rewrite !proj_app, H2, H4.
 Qed.
 
 (* a data-state property of a byte string: from the data state, whatever text is pending, it is consumed
    back to the data state and emits tokens with skeleton S *)
-Definition okd (y : bytes) (S : list sk) : Prop :=
-  forall txt, exists txt' out, run (Data txt) y = (Data txt', out) /\ skel out = S.
+Definition okd (y : bytes) (S : list X) : Prop :=
+  forall txt, exists txt' out, run (Data txt) y = (Data txt', out) /\ proj out = S.
 Lemma okd_nil : okd [] [].
 Proof. intro txt. exists txt, []. split; reflexivity. Qed.
 Lemma okd_app a b S1 S2 : okd a S1 -> okd b S2 -> okd (a ++ b) (S1 ++ S2).
 Proof.
   intros Ha Hb txt. destruct (Ha txt) as (t1 & o1 & Hr1 & Hs1). destruct (Hb t1) as (t2 & o2 & Hr2 & Hs2).
-  rewrite run_app, Hr1, Hr2. exists t2, (o1 ++ o2). split; [reflexivity|]. now rewrite skel_app, Hs1, Hs2.
+  rewrite run_app, Hr1, Hr2. exists t2, (o1 ++ o2). split; [reflexivity|]. now rewrite proj_app, Hs1, Hs2.
 Qed.
 Lemma okd_plain y : ~ In x3c y -> okd y [].
 Proof. intros H txt. rewrite (data_inert txt y H). eexists _, []. split; reflexivity. Qed.
 (* it is enough to know it for one pending text *)
-Lemma okd_from_one y S txt0 txt' out : run (Data txt0) y = (Data txt', out) -> skel out = S -> okd y S.
+Lemma okd_from_one y S txt0 txt' out : run (Data txt0) y = (Data txt', out) -> proj out = S -> okd y S.
 Proof.
   intros Hr Hs txt. destruct (run_sim y (Data txt0) (Data txt) (sim_data _ _)) as [H1 H2].
   rewrite Hr in H1, H2. cbn [fst snd] in *. destruct (run (Data txt) y) as [s o]. cbn [fst snd] in *.
@@ -171,3 +182,4 @@ Proof.
   - clear IHpost. replace (pre ++ x3c :: post ++ [d]) with ((pre ++ x3c :: post) ++ [d]) in E by now rewrite <- app_assoc.
     apply app_inj_tail in E. destruct E as [_ ->]. rewrite uws_only_app. cbn. rewrite Hw. now rewrite andb_false_r.
 Qed.
+End Proj.
